@@ -96,6 +96,36 @@ def run(tier, seed):
     outs = realcode.eval_formulas(['=A%d%%' % (r + 1) for r in range(len(items))], {(0, r): 1 for r in range(len(items))}, overrides=values)
     chk.judge('percent-overrides', [('pct I%d I%d %s' % (d, e, core.enc(values[(0, r)])), outs[r], {'formula': '=A%d%%' % (r + 1), 'override A': dec_text(d, e)})
                                     for r, (d, e) in enumerate(items)])
+    # a percent term under a sign, in brackets, next to * 1 and 0 -: the value of x% is the same wherever the term stands (cells, literals, overrides)
+    some = items[:: max(1, len(items) // 120)]
+    for route in ('cell', 'literal', 'override'):
+        forms, kinds = [], []
+        for r, (d, e) in enumerate(some):
+            x = 'A%d' % (r + 1) if route != 'literal' else dec_text(d, e)
+            for kind, f in (('plain', '=%s%%'), ('minus', '=-%s%%'), ('plus', '=+%s%%'), ('bracket', '=(%s%%)'), ('minus-bracket', '=-(%s%%)'), ('times-one', '=%s%%*1'),
+                            ('zero-minus', '=0-%s%%'), ('double-minus', '=--%s%%')):
+                forms.append(f % x)
+                kinds.append(kind)
+        vals = {(0, r): float(dec_text(d, e)) for r, (d, e) in enumerate(some)}
+        if route == 'override':
+            outs = realcode.eval_formulas(forms, {(0, r): 1 for r in range(len(some))}, overrides=vals, min_rows=len(some))
+        else:
+            outs = realcode.eval_formulas(forms, vals if route == 'cell' else {}, min_rows=len(some))
+        for i in range(0, len(forms), 8):
+            try:
+                plain = core.dec(outs[i])
+            except Exception:  # noqa
+                plain = None
+            for j in range(1, 8):
+                chk.count('percent-in-context')
+                want = None if plain is None else (-plain if kinds[i + j] in ('minus', 'minus-bracket', 'zero-minus') else plain)
+                try:
+                    got = core.dec(outs[i + j])
+                except Exception:  # noqa
+                    got = outs[i + j]
+                if want is None or got != want:
+                    chk.violation({'why': 'a percent term does not have the same value under a sign / in brackets / next to * 1 as on its own', 'formula': forms[i + j], 'route': route,
+                                   'impl': outs[i + j], 'on its own': outs[i], 'stream': 'percent-in-context'})
     ints = [0, 1, 5, 7, 15, 50, 99, 100, 12345, 33, 1234567]
     outs = realcode.eval_formulas(['=%d%%' % z for z in ints], {})
     chk.judge('percent-literals', [('pct I%d' % z, o, {'formula': '=%d%%' % z}) for z, o in zip(ints, outs)])
